@@ -56,19 +56,19 @@ var types = map[string]ptype{
 		return &msg.NewProxy{ProxyName: n, ProxyType: "udp", RemotePort: 20001, BandwidthLimit: "64KB", BandwidthLimitMode: "server"}
 	}, nil},
 	"http": {func(n string) *msg.NewProxy {
-		return &msg.NewProxy{ProxyName: n, ProxyType: "http", CustomDomains: []string{"a.example.com", "b.example.com"}, Locations: []string{"/", "/x"}}
+		return &msg.NewProxy{ProxyName: n, ProxyType: "http", CustomDomains: []string{"a.example.com", "B.Example.COM"}, Locations: []string{"/", "/x"}}
 	}, nil},
 	"httpsub": {func(n string) *msg.NewProxy {
 		return &msg.NewProxy{ProxyName: n, ProxyType: "http", SubDomain: "www", HTTPUser: "u", HTTPPwd: "p"}
 	}, nil},
 	"httpgroup": {func(n string) *msg.NewProxy {
-		return &msg.NewProxy{ProxyName: n, ProxyType: "http", CustomDomains: []string{"g.example.com"}, Group: "HG", GroupKey: "k"}
+		return &msg.NewProxy{ProxyName: n, ProxyType: "http", CustomDomains: []string{"G.example.Com"}, Group: "HG", GroupKey: "k"}
 	}, nil},
 	"https": {func(n string) *msg.NewProxy {
-		return &msg.NewProxy{ProxyName: n, ProxyType: "https", CustomDomains: []string{"s.example.com", "t.example.com"}}
+		return &msg.NewProxy{ProxyName: n, ProxyType: "https", CustomDomains: []string{"s.example.com", "T.Example.com"}}
 	}, nil},
 	"tcpmux": {func(n string) *msg.NewProxy {
-		return &msg.NewProxy{ProxyName: n, ProxyType: "tcpmux", Multiplexer: "httpconnect", CustomDomains: []string{"m.example.com", "n.example.com"}}
+		return &msg.NewProxy{ProxyName: n, ProxyType: "tcpmux", Multiplexer: "httpconnect", CustomDomains: []string{"m.example.com", "N.example.COM"}}
 	}, func(w *sw.World, name, src string) string {
 		u, e := w.ConnectMux(src, "m.example.com", "")
 		if u != nil {
@@ -80,7 +80,7 @@ var types = map[string]ptype{
 		return sw.Echo(u, "data-"+src)
 	}},
 	"tcpmuxgroup": {func(n string) *msg.NewProxy {
-		return &msg.NewProxy{ProxyName: n, ProxyType: "tcpmux", Multiplexer: "httpconnect", CustomDomains: []string{"mg.example.com"}, Group: "MG", GroupKey: "k"}
+		return &msg.NewProxy{ProxyName: n, ProxyType: "tcpmux", Multiplexer: "httpconnect", CustomDomains: []string{"MG.example.com"}, Group: "MG", GroupKey: "k"}
 	}, nil},
 	"stcp": {func(n string) *msg.NewProxy { return &msg.NewProxy{ProxyName: n, ProxyType: "stcp", Sk: "sk", AllowUsers: []string{"*"}} },
 		func(w *sw.World, name, src string) string {
